@@ -111,10 +111,8 @@ def p2sh_script_sig(sigs: typing.List[bytes], redeem_script: bytes) -> bytes:
 
     ...signatures... {serialized script}
     """
-    script_sig = [len(sig).to_bytes(1, "little") + sig for sig in sigs]
-    script_sig = b"".join(script_sig)
-    script_sig += len(redeem_script).to_bytes(1, "little") + redeem_script
-    return script_sig
+    # script() selects the push opcode by length (redeem scripts longer than 75 bytes need OP_PUSHDATA)
+    return script([sig.hex() for sig in sigs] + [redeem_script.hex()])
 
 
 def multisig_script_pubkey(m: int, pubkeys: typing.List[bytes]) -> bytes:
